@@ -1,0 +1,35 @@
+//go:build verif
+
+package context
+
+// Verification exports for property C12, second part: read-only view of the leaf's
+// grouping-collect protocol and access to getTagValues. No-op for normal builds (build tag verif).
+
+// VerifCollectState returns the bookkeeping of the leaf's grouping-collect protocol: pending
+// grouping tasks, the collect countdown, whether collectGroupingTagsCompleted has been closed,
+// and per group-by key the tag value ids the collected dictionary holds (nil = nil map).
+func (ctx *LeafGroupingContext) VerifCollectState() (pending, remaining int32, closed bool, maps [][]uint32) {
+	ctx.mutex.Lock()
+	defer ctx.mutex.Unlock()
+	select {
+	case <-ctx.collectGroupingTagsCompleted: // a nil channel (no group by) never becomes ready
+		closed = true
+	default:
+	}
+	maps = make([][]uint32, len(ctx.tagValuesMap))
+	for i, m := range ctx.tagValuesMap {
+		if m == nil {
+			continue
+		}
+		maps[i] = make([]uint32, 0, len(m))
+		for id := range m {
+			maps[i] = append(maps[i], id)
+		}
+	}
+	return ctx.groupingRelatedTasks.Load(), ctx.collectRelatedTasks.Load(), closed, maps
+}
+
+// VerifTagValues renders a group key (concatenated little-endian tag value ids) through the real getTagValues.
+func (ctx *LeafGroupingContext) VerifTagValues(tagValueIDs string) string {
+	return ctx.getTagValues(tagValueIDs)
+}
